@@ -200,6 +200,8 @@ package vm
 //@   ensures err == nil && old(m.Program.Instructions[m.P]) == program.OP_SAVE && is(old(m.Stack)[len(old(m.Stack)) - 2], machine.Asset) ==> forall a machine.AccountAddress, x machine.Asset :: {bal(m.Balances, a, x)} {bal(old(m.Balances), a, x)} tracked(old(m.Balances), a, x) ==> bal(m.Balances, a, x) == ((a == old(m.Stack)[len(old(m.Stack)) - 1].(machine.AccountAddress) && x == old(m.Stack)[len(old(m.Stack)) - 2].(machine.Asset) && bal(old(m.Balances), a, x) > 0) ? 0 : bal(old(m.Balances), a, x))
 //@   ensures err == nil ==> m.P > old(m.P) && m.Program == old(m.Program) && m.Resources == old(m.Resources)
 //@   ensures err == nil && !finished ==> m.P < len(m.Program.Instructions)
+//@   ensures err != nil ==> finished
+//@   note Execute looks at the error only when tick reports finished: an error returned with finished == false would be dropped and the same opcode run again on a half-popped stack
 //@   loop 1:
 //@     invariant unchangedExcept(m, old(m), Stack) && wfStack(m.Stack) && len(portions) == val(n) && i <= val(n)
 //@     invariant sameArray(m.Stack, old(m.Stack)) && len(m.Stack) == len(old(m.Stack)) - 1 - i && val(n) == val(old(m.Stack)[len(old(m.Stack)) - 1].(*machine.MonetaryInt))
